@@ -87,6 +87,22 @@ impl OwnedEntry {
     }
 }
 
+/// Makes sure a directory and all its ancestors are registered exactly once.
+fn register_dir(dirs: &mut HashMap<SharedString, Vec<OwnedEntry>>, id: &SharedString) {
+    if dirs.contains_key(id) {
+        return;
+    }
+    dirs.insert(id.clone(), Vec::new());
+
+    if let Some(parent) = DirEntry::Directory(id).parent_id() {
+        let parent = SharedString::from(parent);
+        register_dir(dirs, &parent);
+        if let Some(entries) = dirs.get_mut(&parent) {
+            entries.push(OwnedEntry::Dir(id.clone()));
+        }
+    }
+}
+
 /// Register a file of an archive in maps.
 fn register_file(
     file: ZipFile,
@@ -125,18 +141,15 @@ fn register_file(
         let id = id_builder.join();
 
         // Register the file in the maps.
-        let entry = if file.is_file() {
+        if file.is_file() {
             let ext = extension_of(path)?.into();
             let desc = FileDesc(id, ext);
             files.insert(desc.clone(), index);
-            OwnedEntry::File(desc)
+            register_dir(dirs, &parent_id);
+            dirs.entry(parent_id).or_default().push(OwnedEntry::File(desc));
         } else {
-            if !dirs.contains_key(&id) {
-                dirs.insert(id.clone(), Vec::new());
-            }
-            OwnedEntry::Dir(id)
-        };
-        dirs.entry(parent_id).or_default().push(entry);
+            register_dir(dirs, &id);
+        }
 
         Some(())
     })()
@@ -232,6 +245,7 @@ where
         let len = archive.len();
         let mut files = HashMap::with_capacity(len);
         let mut dirs = HashMap::new();
+        register_dir(&mut dirs, &SharedString::from(""));
         let mut id_builder = IdBuilder::default();
 
         for index in 0..len {
